@@ -12,7 +12,7 @@ CLAIMS = {
  "C05": ("Tie also symbolic: the relevant builders are traced on symbolic inputs and every traced entry is proved equal to the model's coefficient for all values (DESIGN 2.7). Theorems: matrix stencils = divergence of the explicit gradient/mean flux, cell by cell, all classes; TVD zero/unit-limiter identities "
          "(Props/C05.v); 7 correspondence suites; identity probes on the real code; zero-u_upwind edge is a known finding (refuted theorem)", "DESIGN.md 3, 4 (C05)"),
  "C06": ("Tie also symbolic: the relevant builders are traced on symbolic inputs and every traced entry is proved equal to the model's coefficient for all values (DESIGN 2.7). Theorems: diffusion of a constant is 0, central/upwind/TVD of a constant c is c*div(u) (Props/C06.v); suites + probes incl. sources-only solve", "DESIGN.md 4 (C06)"),
- "C02": ("Tie also symbolic: the relevant builders are traced on symbolic inputs and every traced entry is proved equal to the model's coefficient for all values (DESIGN 2.7). PARTIAL: proved are the two halves of the Lax argument separately, not the Taylor remainder bound. Stability, every class and dimension, non-uniform spacing included (over R): the discrete solution is within max|truncation error| / min(alpha/dt+beta) of any field satisfying the rows up to that error (comparison principle; D>=0, upwind with divergence-free u; Dirichlet / no-flux / one-signed Robin / periodic closures). Consistency (generic field): on uniform spacing the diffusion and central-advection stencils "
+ "C02": ("Tie also symbolic: the relevant builders are traced on symbolic inputs and every traced entry is proved equal to the model's coefficient for all values (DESIGN 2.7). PARTIAL: proved are the two halves of the Lax argument separately, not the Taylor remainder bound. Stability, every class and dimension, non-uniform spacing included (over R): the discrete solution is within max|truncation error| / min(alpha/dt+beta) of any field satisfying the rows up to that error (comparison principle; D>=0, upwind with divergence-free u; Dirichlet / no-flux / one-signed Robin / periodic closures; for non-periodic boundary objects the closure is derived from the boundary rows, so the statement is about fields satisfying the rows of the assembled system). Consistency (generic field): on uniform spacing the diffusion and central-advection stencils "
          "reproduce the continuous operator exactly on polynomial families separating every metric factor (Cartesian, cylindrical r incl. the axis cell, "
          "SphericalGrid1D exact-volume r, angular 1/r^2), SphericalGrid3D radial block with its exact O(h^2) remainder (Props/C02.v); the model is tied to every "
          "builder by the operator/bc/solve suites; manufactured-solution refinement on the implementation (9 classes x central/upwind x Dirichlet/Robin x "
@@ -24,7 +24,7 @@ CLAIMS = {
  "C04": ("Tie also symbolic: the relevant builders are traced on symbolic inputs and every traced entry is proved equal to the model's coefficient for all values (DESIGN 2.7). Theorems over every solution of the assembled system: term order irrelevant, linear in the unknown, superposition in sources/boundary "
          "data/old values, terms never enter boundary rows (Props/C04.v); the solve suite evaluates the residual of the MODEL system inside Coq at "
          "the real solver's answer for random term lists; probes: identity of the returned object, external solver receives the identical system, "
-         "solveMatrixPDE agreement, per-cell source/transient coefficients against a cell-by-cell assembly; uniqueness of the solution of C07-type systems over R (all closures)", "DESIGN.md 4 (C04)"),
+         "solveMatrixPDE agreement, per-cell source/transient coefficients against a cell-by-cell assembly; uniqueness of the solution of C07-type systems over R, stated for is_solution itself with hypotheses on the data only (closure hypotheses derived from the boundary rows)", "DESIGN.md 4 (C04)"),
  "C07": ("Tie also symbolic: the relevant builders are traced on symbolic inputs and every traced entry is proved equal to the model's coefficient for all values (DESIGN 2.7). Theorems over R: every solution of a system whose rows are convex combinations plus sink stays within [min(data,0), max(data,0)] (within the data "
          "range without sink), non-negativity; sign structure of the diffusion and upwind stencils and row sum = div(u); per axis, -diffusion + upwind has "
          "exactly the convex row shape; and ON THE MODEL for every class and dimension: every solution of the transient/-diffusion/upwind(div-free)/sink "
